@@ -459,7 +459,8 @@ func runForced(e *lib.Env, rs []rec, ps []prog, sched []mstep, kind string) obs 
 				}
 			case "WPut":
 				o.Events = append(o.Events, oev{Kind: "Put", K: p.K})
-			case "WExp":
+			case "WExp", "WPatch":
+				// (a body patch re-indexes the record too: its expiry-changed flag is sticky)
 				if _, ok := find(st.pre, p.K); ok {
 					o.Events = append(o.Events, oev{Kind: "Put", K: p.K})
 				}
